@@ -78,6 +78,7 @@ def main(tier_):
                                   meta=dict(g=dict(kind=kind, acc=acc, extra="", num=999, hist="thread-private-fd-table", expect=dict(ok=True, ino=1)), api="rust", backend=bname, oflags=fl, thread=True)))
     cases.sort(key=lambda c: json.dumps(c["feat"]))
     res = run_pv(cases, jobs=12, tag="C09")
+    res, _ = rerun_noisy(cases, res, tag="C09r")
     stats = collections.Counter()
     samples = []
     for c, r in zip(cases, res):
